@@ -6,6 +6,7 @@ package main
 
 import (
 	"fmt"
+	"go/types"
 	"regexp"
 	"sort"
 	"strings"
@@ -161,6 +162,49 @@ func checkC10(c *Ctx) {
 	c10BuildChains(c)
 	c10SigFrom(c)
 	c10Host(c)
+	// FX inputs: nothing reachable from Verify writes memory reachable from its arguments (certificates,
+	// options incl. the requested key usages, pools, chains under construction), with named exceptions
+	if v := c.Fn("x509", "(*Certificate).Verify"); v != nil {
+		fx := getFX(c)
+		allowed := map[string]string{
+			"(*x509.Certificate).buildChains|param#1":   "the memoisation map created by Verify for this call",
+			"(*x509.Certificate).Verify|param#1.Roots":    "assignment of the default system pool to the by-value options copy",
+			"(*x509.Certificate).systemVerify|param#1.Roots": "by-value options copy",
+		}
+		var fns []*ssa.Function
+		for f := range staticReach(v, "x509") {
+			fns = append(fns, f)
+		}
+		sort.Slice(fns, func(i, j int) bool { return fname(fns[i]) < fname(fns[j]) })
+		n := 0
+		for _, f := range fns {
+			// only the verification code proper: functions that take certificates, pools, options or slices
+			w := fx.Writes(f)
+			for _, r := range sortedRoots(w) {
+				if r.Kind != rkParam {
+					continue
+				}
+				key := fname(f) + "|" + r.String()
+				base := fname(f) + "|" + fmt.Sprintf("param#%d", r.Idx)
+				if _, ok := allowed[key]; ok {
+					continue
+				}
+				if _, ok := allowed[base]; ok {
+					continue
+				}
+				// value receivers / by-value struct params assigned locally are not caller memory: only report
+				// writes through pointer, slice and map parameters
+				if r.Idx < len(f.Params) && !pointerLikeTop(f.Params[r.Idx].Type()) {
+					continue
+				}
+				n++
+				c.Violated("FX-C10-inputs", fname(f), "writes "+r.String(), "verification must not modify its inputs (certificates, options, requested usages, pools): "+fx.describe(r, w[r]), w[r].Pos)
+			}
+		}
+		if n == 0 {
+			c.Holds("FX-C10-inputs", fname(v), fmt.Sprintf("%d functions reachable from Verify write none of their pointer/slice/map arguments", len(fns)), "exceptions: buildChains' memo map", v.Pos())
+		}
+	}
 	// FX pools
 	if v := c.Fn("x509", "(*Certificate).Verify"); v != nil {
 		fx := getFX(c)
@@ -533,4 +577,13 @@ func c10Host(c *Ctx) {
 	} else {
 		c.Missing(rule, "x509.matchHostnames", "function", "not found")
 	}
+}
+
+// pointerLikeTop: the parameter itself is a pointer, slice or map (writes through it are caller-visible)
+func pointerLikeTop(t types.Type) bool {
+	switch t.Underlying().(type) {
+	case *types.Pointer, *types.Slice, *types.Map:
+		return true
+	}
+	return false
 }
